@@ -53,6 +53,9 @@ GridLaws ==
               /\ CoordsLaw(g)
               /\ Discriminates(g)
               /\ ItkLaws(g, {ProbesOf(GDim(g))[i] : i \in 1..Len(ProbesOf(GDim(g)))})
+ItkInv ==
+    st = 4 => /\ IsOrthogonal(g.R)
+              /\ ItkLaws(g, {ProbesOf(GDim(g))[i] : i \in 1..Len(ProbesOf(GDim(g)))})
 PairLaws ==
     (st = 5 /\ q.g2 # NoGrid /\ q.a = "grid" /\ q.b = "grid" /\ ~q.vec) =>
         /\ RoundTrip(g, q.g2)
